@@ -54,9 +54,11 @@ var (
 
 // EnvNames lists the environments available to a tier.
 func EnvNames(tier string) []string {
-	n := []string{"bgv", "bfv", "ckks", "rlwe", "rlwe-coef"}
+	// bgv-1p: one special prime (single-P gadget product / RGSW paths); rlwe-pow2: one special prime and
+	// a power-of-two gadget decomposition
+	n := []string{"bgv", "bfv", "ckks", "rlwe", "rlwe-coef", "bgv-1p", "rlwe-pow2"}
 	if tier == "thorough" {
-		n = append(n, "bgv-1p", "ckks-1p", "rlwe-pow2", "ckks-prec")
+		n = append(n, "ckks-1p", "ckks-prec")
 	}
 	return n
 }
